@@ -147,9 +147,10 @@ def generate(chk: Check) -> dict[str, Any]:
             "MC_Codec",
             cfg_mc(ds, as_, ml, "ok", extra, ["InvHistoryIndependent", "LawsInEveryState"]),
             workers=4,
-            # -coverage makes TLC re-evaluate constant definitions on every use: the resolved hierarchy table
-            # (MCflat) then costs 20x; for that family vacuity is established from the emitted histories instead
-            coverage="hier" not in extra,
+            # no -coverage: TLC's coverage mode (cost-model construction) runs out of memory on Codec.tla since the
+            # class table became hierarchical (Fs/FsRec reachable from every recursive operator); vacuity is
+            # established from what the run emitted (both call kinds occur in the histories, state counts)
+            coverage=False,
             heap="3g",
         )
     # the defective designs (hooks for the top class only; structure function cached under the class NAME) must be
@@ -191,9 +192,8 @@ def generate(chk: Check) -> dict[str, Any]:
         tagname = f"MC_Codec[D={fam[0]},A={fam[1]},len<={fam[2]},{'+'.join(fam[3]) or 'base'}]"
         chk.add_tlc(tagname, r)
         chk.require(r.ok, f"design model {tagname} violates {r.violated}")
-        if "hier" not in fam[3]:
-            for act in ("DoStructure", "DoUnstructure"):
-                chk.require(r.coverage.get(act, (0, 0))[1] > 0, f"vacuous design run {tagname}: action {act} never taken")
+        ncalls = len((r.printed.get("SCEN") or [{}])[0].get("calls", []))
+        chk.require(ncalls > 0 and r.distinct > ncalls, f"vacuous design run {tagname}")
         scen = r.printed.get("SCEN", [])
         hs = r.printed.get("HIST", [])
         chk.require(len(scen) == 1 and len(hs) > 0, f"{tagname}: no histories emitted")
@@ -342,7 +342,7 @@ def monitor(chk: Check, traces: list[dict], label: str, scratch: core.Scratch) -
     with tf.open("w") as f:
         for t in traces:
             f.write(json.dumps(t) + "\n")
-    r = run_tlc(scratch, "Trace_Codec", "SPECIFICATION Spec\nCHECK_DEADLOCK FALSE\n", workers=4, env={"TRACE_FILE": str(tf)}, coverage=True, timeout=1500, heap="4g")
+    r = run_tlc(scratch, "Trace_Codec", "SPECIFICATION Spec\nCHECK_DEADLOCK FALSE\n", workers=4, env={"TRACE_FILE": str(tf)}, coverage=False, timeout=1500, heap="4g")
     vs = r.printed.get("VERDICT", [])
     if len(vs) != len(traces):
         raise core.MachineryError(f"monitor[{label}] produced {len(vs)} verdicts for {len(traces)} traces")
